@@ -127,6 +127,22 @@ def expected_call(desc, inst, cls):
     return Call(cls, (), kwargs)
 
 
+def fields_sx(desc, inst, cls):
+    """(fields <class> ((name) repr kind default value) ...): declaration order, kind 0 = no default, 1 = default, 2 = factory"""
+    from docs import cps
+    parts = []
+    for (nm, how, default, fi, rp) in desc[2]:
+        val = sec_stdlib.sx(getattr(inst, nm))
+        if how == 'none':
+            k, d = 0, 'none'
+        elif how == 'default':
+            k, d = 1, sec_stdlib.sx(default)
+        else:
+            k, d = 2, sec_stdlib.sx(FACTORIES[fi]())
+        parts.append('((%s) %d %d %s %s)' % (cps(nm), 1 if rp else 0, k, d, val))
+    return '(fields %s %s)' % (V.fn_sx(cls), ' '.join(parts))
+
+
 def extras_chunk(args):
     seed, lo, hi = args
     ensure_installed()
@@ -147,7 +163,10 @@ def extras_chunk(args):
             except Exception:
                 continue
             call = expected_call(desc, inst, cls)
-            term = sec_stdlib.sx(call)
+            # the model (PP/Model/Fields.lean) gets the field definitions and the current values and selects what is shown itself;
+            # the prescription computed here from the class description must give the same request (cross-check of the spec)
+            term = fields_sx(desc, inst, cls)
+            spec_term = sec_stdlib.sx(call)
             value = inst
             for wrap in (0, 1):
                 top = value if wrap == 0 else [value, 1]
@@ -165,6 +184,11 @@ def extras_chunk(args):
                 if len(set(texts)) > 1:
                     nt += 1
                 g = drv.ask('(pformat %s %s)' % (tterm, ' '.join(settings_sx(*st) for st in sets)))
+                if wrap == 0:
+                    g_spec = drv.ask('(pformat %s %s)' % (spec_term, ' '.join(settings_sx(*st) for st in sets)))
+                    if g_spec != g:
+                        mism.append({'class': desc, 'instance_kwargs': repr(kw), 'error': 'model field selection differs from the prescription of the property',
+                                     'model_request': term[:600], 'spec_request': spec_term[:600]})
                 if g != '(ok ' + ' '.join(pieces) + ')':
                     mism.append({'class': desc, 'instance_kwargs': repr(kw), 'impl': pieces[-1][:600], 'model_request': tterm[:600]})
                 if len(fails) < 3:
@@ -251,5 +275,5 @@ def extras_section(tier, seed):
     stats = {'evaluations': tot, 'distinct_nontrivial': nt, 'class_definitions': total, 'mismatches': len(mism), 'fresh_interpreter_install_order_checked': True,
              'samples': [{'class': gen_class(random.Random(seed * 100003 + 3), 3)}],
              'rule': 'generated dataclass / attrs class definitions (0-4 fields incl. names ctx and fn; no default / default / default_factory; repr flags; frozen / slots; ClassVar with a changed value and InitVar pseudo-fields) '
-                     'x 3 instances x {alone, in a list} x layouts; model = the call the property prescribes; oracle: no failure warning, eval rebuilds an equal instance'}
+                     'x 3 instances x {alone, in a list} x layouts; the model (PP/Model/Fields.lean) receives the field definitions with the current values and selects the shown fields itself, cross-checked with the call the property prescribes; oracle: no failure warning, eval rebuilds an equal instance'}
     return stats, mism, fails
